@@ -61,6 +61,12 @@ fn shape_for(i: u64, rng: &mut Rng) -> Shape {
         sh.asserts.push(ASpec { col: c + 1, kind: AKind::Sequence { first: 1, stride: n / 4 } });
         sh.exemptions = sh.exemptions.min(sh.max_exemptions());
     }
+    // Lagrange kernel column, auxiliary segment narrower than / as wide as the main segment
+    if i % 6 == 0 {
+        let w = sh.width();
+        sh.aux = Some(AuxShape { cols: (i as usize / 6) % w.max(1), rands: 1, lagrange: true });
+        sh.exemptions = sh.exemptions.min(sh.max_exemptions()).max(1);
+    }
     // more auxiliary than main transition constraints
     if i % 6 == 3 {
         let w = sh.width();
@@ -219,6 +225,38 @@ fn case(i: u64, rng: &mut Rng, st: &mut State, full: bool) {
             }
         }
     }
+    // (1c) a prover that commits to (and opens) the extension of another main trace than the one it
+    // proves: column c of the committed trace differs from the proven one in one cell, everything
+    // else in the proof (polynomials, constraint evaluations, out-of-domain frame, DEEP composition)
+    // comes from the valid trace. The opened values of every column must be tied to the frame; each
+    // query misses the difference with probability <= 1/blowup, so the test needs blowup^q >= 2^40
+    if options.num_queries() as u32 * options.blowup_factor().ilog2() >= 40 {
+        for c in 0..w {
+            let mut committed = cols.clone();
+            let s0 = 1 + rng.usize(n - 1);
+            committed[c][s0] = wfv::refmath::Fp { p }.add(committed[c][s0], 1);
+            set_committed_main_trace(Some(committed));
+            let proved = stark::prove(&honest, false);
+            set_committed_main_trace(None);
+            st.evals += 1;
+            let lagr = shape.aux.as_ref().map(|a| a.lagrange).unwrap_or(false);
+            match proved {
+                Proved::Ok(p) => match stark::verify_proof(fd, hs, &shape, &values, p, &acc, false) {
+                    Ok(Ok(())) => st.violation(format!("committed-trace-differs-from-proven-trace-accepted:{}", if lagr { "lagrange-kernel-air" } else { "main-column" }), describe(c, s0, "the prover committed to another column than the one it proved", format!("column {c} of {w}, aux {:?}", shape.aux))),
+                    Ok(Err(_)) => {
+                        st.count("swap.rejected");
+                        if lagr {
+                            st.count("swap.rejected_on_lagrange_kernel_air");
+                        }
+                    },
+                    Err(pi) => st.violation(format!("verify-panic:{}", pi.sig), describe(c, s0, "verifier panic", pi.msg)),
+                },
+                _ => st.count("swap.no_proof_produced"),
+            }
+        }
+    } else {
+        st.count("swap.skipped_too_few_queries");
+    }
     // (2) the honest proof against perturbed statements
     let mut checked = 0;
     for (ai, v) in values.iter().enumerate() {
@@ -317,7 +355,7 @@ fn main() {
     let full = !run.quick();
     let n = run.size(240, 12_000);
     run.par("shapes", n, |i, rng, st| case(i, rng, st, full));
-    let mut require = vec![("shapes.every_cell_corrupted".to_string(), 10), ("still_valid.accepted".to_string(), 20), ("perturbed_statements".to_string(), 100), ("aux.rejected".to_string(), 50), ("aux.rejected_constraint_index_ge_main_constraints".to_string(), 10)];
+    let mut require = vec![("shapes.every_cell_corrupted".to_string(), 10), ("still_valid.accepted".to_string(), 20), ("perturbed_statements".to_string(), 100), ("aux.rejected".to_string(), 50), ("aux.rejected_constraint_index_ge_main_constraints".to_string(), 10), ("swap.rejected".to_string(), 30), ("swap.rejected_on_lagrange_kernel_air".to_string(), 5)];
     for k in ["first-step", "last-enforced-row", "row-before-exemption-boundary", "last-step", "asserted-single", "asserted-periodic", "asserted-sequence", "interior", "perturbed_assertion_value", "perturbed_exemptions", "perturbed_rule-constant", "relabelled_trace-metadata-byte", "relabelled_proof-option"] {
         require.push((format!("rejected.{k}"), 5));
     }
@@ -325,7 +363,7 @@ fn main() {
         require.push((format!("shapes.{f:?}"), 5));
     }
     run.finish(Finish {
-        rule: "per shape of the C01 family (n = 8..64, 1..7 columns, all 12 field x hasher combinations, three extension degrees): every (column, step) cell (all cells while n*width <= 160 in quick, always in thorough; boundary + asserted + sampled cells otherwise) is corrupted by +1 or a random value and proven with the unchanged public inputs; the reference validity predicate decides the expected verdict (invalid -> rejected, still valid -> accepted); rejections are counted per step class (first step, row before / at / after the exemption boundary, last step, asserted cells per assertion kind, interior); a prover that corrupts one cell of the auxiliary segment (all cells of small segments; shapes with more auxiliary than main constraints forced every sixth case) must be rejected exactly when the cell touches an enforced step; then the honest proof is verified against perturbed assertion values and perturbed computation descriptions (exemptions, rule constant, assertion step, periodic value), and the proof itself is relabelled (every byte of its trace metadata - lengths at the element-chunk boundaries -, each proof option) and must then be rejected. distinct = distinct (shape instance, corrupted cell, delta)".into(),
+        rule: "per shape of the C01 family (n = 8..64, 1..7 columns, all 12 field x hasher combinations, three extension degrees): every (column, step) cell (all cells while n*width <= 160 in quick, always in thorough; boundary + asserted + sampled cells otherwise) is corrupted by +1 or a random value and proven with the unchanged public inputs; the reference validity predicate decides the expected verdict (invalid -> rejected, still valid -> accepted); rejections are counted per step class (first step, row before / at / after the exemption boundary, last step, asserted cells per assertion kind, interior); a prover that corrupts one cell of the auxiliary segment (all cells of small segments; shapes with more auxiliary than main constraints forced every sixth case) must be rejected exactly when the cell touches an enforced step; a prover that commits to and opens the extension of another main trace than the one it proves (one column differing in one cell; only when blowup^queries >= 2^40; Lagrange-kernel computations forced every sixth case) must be rejected for every column; then the honest proof is verified against perturbed assertion values and perturbed computation descriptions (exemptions, rule constant, assertion step, periodic value), and the proof itself is relabelled (every byte of its trace metadata - lengths at the element-chunk boundaries -, each proof option) and must then be rejected. distinct = distinct (shape instance, corrupted cell, delta)".into(),
         assumptions: vec![
             "a prover panic/error on an invalid trace counts as 'no proof' (vacuous)".into(),
             "rejection happens at the out-of-domain check with probability >= 1 - deg/|F| >= 1 - 2^-45: treated as deterministic".into(),
